@@ -162,6 +162,15 @@ def _judge(model, cls, kind, sym, fields, pss, mem):
                 n_rec = sum(1 for e in ps.events if e.kind == "rec")
                 if not tests:
                     saw.add("empty")
+                    if n_rec:
+                        # operands are evaluated although the loop that looks
+                        # at them one by one has not started: they are all
+                        # evaluated up front
+                        return False, (
+                            "every operand is evaluated before the first is "
+                            f"looked at, so '{sym}' no longer stops at the "
+                            "deciding operand (x == 0 or 1/x > y raises at "
+                            "x = 0)")
                     if ps.retval != ("const", not stop_pol):
                         return False, (f"no operands: returns {ps.retval}, "
                                        f"Python's empty '{sym}' chain is "
@@ -177,6 +186,18 @@ def _judge(model, cls, kind, sym, fields, pss, mem):
                 if v != ELEM:
                     return False, "the loop branches on something other than " \
                         "the operand just evaluated"
+                # the deciding operand leaves the loop early; the other
+                # polarity goes on to the next operand (here: to the end)
+                ret = ps.items[-1][1]
+                loops_ = [w for w in ast.walk(model.inlined(mem.node))
+                          if isinstance(w, (ast.For, ast.While))]
+                early = any(ret is x for w in loops_ for b in w.body
+                            for x in ast.walk(b))
+                if early != (pol == stop_pol):
+                    return False, (
+                        f"the loop stops at the first operand that is "
+                        f"{'true' if pol else 'false'}: that is not Python's "
+                        f"'{sym}'")
                 saw.add("stop" if pol == stop_pol else "last")
             ok = saw == {"empty", "stop", "last"}
             return ok, (f"operands in order; the first that is "
@@ -508,9 +529,12 @@ def _variants(ctx, model):
                "mapper_cls(context)(expression)" if ok else
                f"{fname} does not apply mapper_cls(context) to the expression")
     # cached and uncached agree: the look-aside of the memoizing evaluator
-    from .c05 import _cache_key, check_lookaside
+    from .c05 import _cache_key, check_cse_mixin, check_lookaside
     _cache_key(ctx, model, scope=[cev])
     check_lookaside(ctx, model)
+    # "a common subexpression meaning its child", however often and in
+    # whichever scope it recurs: the wrapper table's rules (C05's instances)
+    check_cse_mixin(ctx, model)
     # the mix-in must win in both
     for c in (ev, cev):
         mem = effective_member(model, c, "map_common_subexpression")
